@@ -286,6 +286,61 @@ def St.extAdd (s : St) (o : Nat) : St × Bool :=
 def St.extUnref (s : St) (o : Nat) : St :=
   { (s.unref o) with objs := (s.unref o).objs.set o { ((s.unref o).obj o) with ext := ((s.unref o).obj o).ext - 1 } }
 
+/-! ### histories: the operations of a history and the machine step the driver part `r` executes -/
+
+def RRet.isOk : RRet → Bool
+  | .ok _ => true | .err _ => false
+
+/-- operations of a history (any mix of pointer handles and array handles) -/
+inductive Op where
+  | create (kind : OKind) (n : Nat) (elems : List Nat)   -- a new object, its creator holds `n` (external) references
+  | take (h o : Nat)                          -- empty handle := reference to object o
+  | copy (h g : Nat)                          -- empty handle := copy of handle g
+  | drop (h : Nat)
+  | assignMeta (h : Nat) (src : Option Nat)   -- through `_mpt_metatype_wrap`
+  | assignArr (h : Nat) (src : Option Nat)    -- through `mpt_array_clone`
+  | extAdd (o : Nat)                          -- external reference taken
+  | extUnref (o : Nat)                        -- external reference given back (only if one is held)
+  | detach (h len : Nat)                      -- private copy of the heap buffer behind handle h (`buffer::detach`)
+  | reserve (h len : Nat)                     -- `mpt_array_reserve`: private buffer for len elements
+  deriving Repr
+
+/-- requests the drivers accept (anything else is `bad-op` and leaves the state as it is) -/
+def St.valid (s : St) : Op → Bool
+  | .create _ n _ => decide (n ≤ MAXV)
+  | .take h o => decide (h < s.hnd.length ∧ s.hnd.getD h none = none ∧ o < s.objs.length)
+  | .copy h g => decide (h < s.hnd.length ∧ s.hnd.getD h none = none ∧ g < s.hnd.length)
+  | .drop h => decide (h < s.hnd.length)
+  | .assignMeta h src => decide (h < s.hnd.length ∧ ∀ n, src = some n → n < s.objs.length)
+  | .assignArr h src => decide (h < s.hnd.length ∧ ∀ n, src = some n → n < s.objs.length)
+  | .extAdd o => decide (o < s.objs.length)
+  | .extUnref o => decide (1 ≤ (s.obj o).ext)
+  | .detach h _ => decide (h < s.hnd.length)
+  | .reserve h _ => decide (h < s.hnd.length)
+
+/-- one operation: the state afterwards and whether it was accepted -/
+def St.exec (s : St) (op : Op) : St × Bool :=
+  if !s.valid op then (s, false) else
+  match op with
+  | .create k n els =>
+    ({ s with objs := s.objs ++ [{ kind := k, count := n, alive := true, ext := n, elems := els, cap := capOf (els.length * 8) }],
+              ev := s.ev ++ [{}] }, true)
+  | .take h o => ((s.take h o).1, (s.take h o).2.isOk)
+  | .copy h g => ((s.copy h g).1, (s.copy h g).2.isOk)
+  | .drop h => (s.drop h, true)
+  | .assignMeta h src => ((s.assignMeta h src).1, (s.assignMeta h src).2.isOk)
+  | .assignArr h src => ((s.assignArr h src).1, (s.assignArr h src).2.isOk)
+  | .extAdd o => s.extAdd o
+  | .extUnref o => (s.extUnref o, true)
+  | .detach h len => s.detach h len
+  | .reserve h len => s.reserve h len
+
+def step (s : St) (op : Op) : St := (s.exec op).1
+
+def run (s : St) : List Op → St
+  | [] => s
+  | op :: ops => run (step s op) ops
+
 /-- give back the external references of object `o` at the end of a script (`fuel` bounds the loop) -/
 def St.endObj (s : St) (o : Nat) : Nat → St
   | 0 => s
